@@ -77,11 +77,15 @@ fn montgomery(x: &BigUint, y: &BigUint, m: &BigUint, k: BigDigit, n: usize) -> B
 
     if c == 0 {
         z.data = z.data[n..].to_vec();
+        #[cfg(num_bigint_verif)]
+        crate::verif::hit(crate::verif::MONTY_NOSUB);
     } else {
         {
             let (first, second) = z.data.split_at_mut(n);
             sub_vv(first, second, &m.data);
         }
+        #[cfg(num_bigint_verif)]
+        crate::verif::hit(crate::verif::MONTY_SUB);
         z.data = z.data[..n].to_vec();
     }
 
@@ -216,6 +220,8 @@ pub(super) fn monty_modpow(x: &BigUint, y: &BigUint, m: &BigUint) -> BigUint {
         // in case our beliefs are wrong.
         // The div is not expected to be reached.
         zz -= m;
+        #[cfg(num_bigint_verif)]
+        crate::verif::hit(crate::verif::MONTY_FINAL_SUB);
         if zz >= *m {
             zz %= m;
         }
@@ -223,4 +229,16 @@ pub(super) fn monty_modpow(x: &BigUint, y: &BigUint, m: &BigUint) -> BigUint {
 
     zz.normalize();
     zz
+}
+
+#[cfg(num_bigint_verif)]
+pub(super) fn verif_montgomery(x: &[BigDigit], y: &[BigDigit], m: &[BigDigit], k: BigDigit, n: usize) -> Vec<BigDigit> {
+    let x = BigUint { data: x.to_vec() };
+    let y = BigUint { data: y.to_vec() };
+    let m = BigUint { data: m.to_vec() };
+    montgomery(&x, &y, &m, k, n).data
+}
+#[cfg(num_bigint_verif)]
+pub(super) fn verif_inv_mod_alt(b: BigDigit) -> BigDigit {
+    inv_mod_alt(b)
 }
